@@ -225,6 +225,10 @@ func (s *Sampler) emit(n *Node, out []rune) []rune {
 		if n.Ahead && !n.Neg && s.R.Intn(2) == 0 {
 			return s.emit(n.Kids[0], out)
 		}
+		if !n.Ahead && !n.Neg && s.R.Intn(3) != 0 {
+			// the text a look-behind wants directly in front of what follows
+			return s.emit(n.Kids[0], out)
+		}
 	}
 	return out
 }
